@@ -4,6 +4,10 @@ import json, os, subprocess
 V = os.path.dirname(os.path.dirname(os.path.abspath(__file__)))
 
 CHECKS = {
+ "C09": dict(level="exploration", design="§3 C09",
+   text="Round-trip monitor through the hooks: every spelling base + <= 1 diacritic (quick; <= 2 in thorough, ~370 k) that parses to one segment, and the segments one feature / one place node away from them, are rendered and - unless the rendering contains U+FFFD - parsed back and compared as bundles; 150 k (quick) / 5 M (thorough) random words assembled from those segments with every stress / tone / length pattern, equal segments across boundaries and twin pairs (X next to X+diacritic); and 60 k / 2 M outputs of run on generated rules are fed back through the empty rule list and must be fixed points.",
+   note="known findings KF-C09-1/2: a stop or nasal next to a click consonant is ambiguous in the notation itself; structural comparison through the hook, public API for the fixed-point part",
+   technique="render/parse round-trip runtime monitor (structural hook + public API fixed point)"),
  "C06": dict(level="exploration", design="§3 C06",
    text="Planted-absent-literal monitor: 300 k (quick) / 20 M (thorough) rules from the full-grammar generator (all four rule types, sets, optionals, ellipses, structures, variables, alphas, environment sets, condensed rules) get a reserved segment that no generated word contains planted as a mandatory element of every input alternative (insertion: of the context); whenever the real interpreter returns Ok the structural word (hook) must equal the input. The run also checks that the plant is what stops the rule (the unplanted rule changes the word in ~13 % of the cases, which is what is counted as non-trivial). Blank and comment-only lines are checked too.",
    note="the plant is placed at the top level of the input / context, never inside a set or optional, so it is mandatory by construction; panics and budget exhaustion are recorded for C02, not judged here",
